@@ -97,7 +97,7 @@ def prop_file(pid: str) -> str:
 def theorems_of(pid: str) -> list[str]:
     """(name, first line, last line) of every theorem in the property file."""
     src = open(prop_file(pid)).read()
-    return [m.group(1) for m in _THM_RE.finditer(src)]
+    return [m.group(1) for m in _THM_RE.finditer(src) if re.match(r"C\d\d_", m.group(1))]
 
 
 def _theorem_spans(path: str):
